@@ -51,6 +51,14 @@ theorem engines_resume_exactly :
     Gen.Facts.engineExits.all (fun e => e.2.2.2.1.all (fun f => e.2.2.2.2.contains f)) = true :=
   C02.engine_exits_store_all_cached_registers.1
 
+/-- The LZ code buffer cannot overflow between two of the engines' fullness tests (theorem over
+    constants regenerated from the source, proved in Props/C02, re-checked here: an overflow corrupts
+    the block for inputs that fill the buffer at one particular alignment). -/
+theorem lz_code_buffer_never_overflows :
+    (∀ N ∈ Gen.DeflCore.LZ_TIGHT_SLACK_NORMAL.toList, ∀ pos : Int, 0 ≤ pos → pos ≤ Gen.Buffer.LZ_CODE_BUF_SIZE - N →
+        pos + (RECORD_LITERAL_CODES + RECORD_MATCH_CODES + 1) ≤ Gen.Buffer.LZ_CODE_BUF_SIZE) :=
+  C02.lz_code_buffer_never_overflows.1
+
 -- non-vacuity: level 200 really is a u8 level above 10 and maps to level 10's flags
 example : flagsFor 200 1 = flagsFor 10 1 := level_clamp 200 1 (by decide) (by decide) (by decide)
 example : flagsFor 10 1 = 0x1000 + 1500 := by decide +kernel
